@@ -155,6 +155,15 @@ func VH_C08_walk_createleaf() {
 
 func VH_C08_walk_stream() {
 	l, ctx := vhWalkSetup("stream")
+	if verifrt.Choose("second-tip", 2) == 1 {
+		// a second tip sharing the ancestors of the first (a gossiped sibling of the last vertex)
+		k := len(l.recs)
+		p := k - 2
+		if p < 0 {
+			p = 0
+		}
+		l.add(vhTransfer(k, "A", "C", spice.New(0, 1), nil, vhPeerAddr, uint64(50+k)), p)
+	}
 	ch := l.ab.StreamDAG(ctx)
 	for range ch {
 	}
